@@ -53,7 +53,7 @@ T = {
     "C17-m1-ln2-constants-cached-on-context": ("get_log2_doubleword_and_inverse caches its constants on the context object, ignoring the dtype-selecting argument", "one NumpyContext used for several float types, narrower type first", False, "C17 histories on one shared NumpyContext (all dtype sequences of length 2 and 3, scalar and 0-d array inputs) compared with fresh-context results"),
     "C17-m2-trig-select-fp16-t-is-r": ("argument_reduction_trigonometric: type-generic select returns fp16_r for t", "float16 input that is not a NumPy scalar (0-d array / traced expression): the type-generic path", False, "C17 second and third route to the same functions: 0-d arrays through NumpyContext (type-generic path) and the traced+emitted NumPy function, bit-compared with the scalar route"),
     "C01-m3-sqrt-overflow-fallback-r-for-sqrt-r": ("complex_sqrt overflow fallback uses r where sqrt(r) belongs", "|x| in the top half binade with x^2+y^2 > largest^2 and |x| > |y|", True, ""),
-    "C01-m4-fast2sum-compensation-sign": ("algorithms.add_2sum fast branch: t = z - y instead of y - z", "complex log with |z| within a few ULP of 1", True, ""),
+    "C01-m4-fast2sum-compensation-sign": ("algorithms.add_2sum fast branch: t = z - y instead of y - z", "complex log with |z| within a few ULP of 1", False, "C01 unit-modulus lattice: |z| and |1+z| within 2 ULP of 1 (which also surfaced the recorded log1p finding near z = -2)"),
     "C01-m5-logical-not-lt-becomes-lt": ("Rewriter.logical_not: not (a < b) -> lt(b, a) instead of le(b, a)", "a == b exactly; in asin_acos_kernel |x| == sqrt(largest)/8*1e12", True, ""),
     "C03-m3-kernel-region-signed-x": ("asin_acos_kernel region test uses signed_x instead of x", "Re z <= -1 with |Re z| in [1, 1.5]", True, ""),
     "C03-m4-atanh-imag-sign-factored": ("complex_atanh: sign of y factored out of the imaginary part", "an imaginary part equal to -0.0 (only the sign of a zero result changes)", True, ""),
@@ -79,7 +79,7 @@ T = {
     "C16-m3-exponent-by-squaring-odd-step": ("fast_exponent_by_squaring odd step multiplies by r instead of x", "balanced/canonical schemes, degree >= 5/10", True, ""),
     "C16-m4-add-number-first-drops-reverse": ("polynomial.add with a bare number as first operand drops reverse", "first operand a bare number, reverse=True, list of >= 2 entries", False, "C16 number operands (first/second) for add and multiply"),
     "C16-m5-fpa-rpolynomial-degree0": ("fpa.rpolynomial peels the first Horner step", "a single-entry ratio list (degree 0)", True, ""),
-    "C18-m3-set-mxcsr-skips-cached-value": ("set_mxcsr skips ldmxcsr when the value equals the last one written through that instance", "two register instances alternating writes", True, ""),
+    "C18-m3-set-mxcsr-skips-cached-value": ("set_mxcsr skips ldmxcsr when the value equals the last one written through that instance", "two register instances alternating writes", False, "C18 contexts are created from two register objects (the hardware register is one per thread)"),
     "C18-m4-enter-caches-new-state": ("context.__enter__ caches the modified value of its first entry", "one context object entered twice under different ambient MXCSR", True, ""),
     "C18-m5-exit-pops-oldest": ("context.__exit__ pops the oldest saved state", "re-entrant use of one context object", True, ""),
 }
